@@ -1,6 +1,6 @@
 (** Dispatch table used by the extracted runner: property number -> model runner / monitor. *)
 From RRE Require Import Base.Sx.
-From RRE Require Model.Watermark Model.Tms Model.ProofGraph Model.Undo Model.Module Model.Window Model.StreamAlpha Model.Join Model.KB Model.Index Model.State Model.ReteAgenda Model.EngineConc Model.Parallel Model.Incremental Model.ExprShape Model.ForwardSpec Model.Grl Model.Backward.
+From RRE Require Model.Watermark Model.Tms Model.ProofGraph Model.Undo Model.Module Model.Window Model.StreamAlpha Model.Join Model.KB Model.Index Model.State Model.ReteAgenda Model.EngineConc Model.Parallel Model.Incremental Model.ExprShape Model.BwExpr Model.ForwardSpec Model.Grl Model.Backward.
 Open Scope Z_scope.
 
 Definition run_by_id (id : Z) (c : sx) : sx :=
@@ -9,7 +9,7 @@ Definition run_by_id (id : Z) (c : sx) : sx :=
   | 2 => EngineConc.run_sx c
   | 3 => EngineConc.run_sx c
   | 4 => Grl.run_sx c
-  | 5 => ExprShape.run_sx c
+  | 5 => match c with L [A 5; t] => match getZs t with Some t => BwExpr.run_text t | None => sx_bad end | _ => ExprShape.run_sx c end
   | 6 => Incremental.run_sx c
   | 7 => ReteAgenda.run_sx c
   | 8 => Tms.run_sx c
